@@ -36,6 +36,16 @@ AllUnparseDevs == {"CaptionContentOnOwnLine", "DefinitionDropped"}
 \*   "EmptyArgumentsSkipped"          only arguments with content are joined
 WhatIfEmptyArgDevs == {"ColonNeedsNonEmptyArgument", "TrailingEmptyArgumentsDropped", "EmptyArgumentsSkipped"}
 
+\* What-if switches for the SEAM between two blocks (never passed by the harness; Gen_Unparse.Seams lets
+\* TLC show what each of them does to the in-model round trip of the list-adjacency universe).  The
+\* emitters of headings, rules, tables and magic words write a line break before and after themselves;
+\* a list does not: between two lists the blank-only string child IS the separator.
+\*   "BlankBetweenOwnLineNodesDropped"             a blank-only string between two nodes that are written
+\*                                                 on lines of their own (LEVELn, HLINE, TABLE, MAGIC_WORD,
+\*                                                 LIST) is not written
+\*   "BlankBetweenOwnLineNodesDroppedExceptLists"  the same without LIST in the set: harmless
+WhatIfSeamDevs == {"BlankBetweenOwnLineNodesDropped", "BlankBetweenOwnLineNodesDroppedExceptLists"}
+
 RECURSIVE Concat(_)
 Concat(ss) == IF ss = <<>> THEN <<>> ELSE Head(ss) \o Concat(Tail(ss))
 
@@ -83,10 +93,22 @@ AttrsText(attrs) ==
            one == IF a.v = "" THEN <<a.n>> ELSE <<a.n, "=", "\"", a.v, "\"">>
        IN IF Len(attrs) = 1 THEN one ELSE one \o <<"SP">> \o AttrsText(Tail(attrs))
 
-RECURSIVE Unparse(_, _), UnparseList(_, _), JoinArgs(_, _, _), JoinAll(_, _, _)
+RECURSIVE Unparse(_, _), UnparseSeq(_, _), JoinArgs(_, _, _), JoinAll(_, _, _)
 
-\* recurse() on a list / tuple
-UnparseList(xs, Dev) == IF xs = <<>> THEN <<>> ELSE Unparse(Head(xs), Dev) \o UnparseList(Tail(xs), Dev)
+\* what-if only: the child list without the blank-only strings between two own-line nodes
+IsBlankStr(c) == IsStr(c) /\ c.s # <<>> /\ \A k \in 1..Len(c.s) : c.s[k] \in WS
+OwnLine(c, Dev) ==
+  IsNode(c) /\ c.kind \in LevelKinds \cup {"HLINE", "TABLE", "MAGIC_WORD"}
+                              \cup (IF "BlankBetweenOwnLineNodesDropped" \in Dev THEN {"LIST"} ELSE {})
+RECURSIVE DropSeamBlanks(_, _)
+DropSeamBlanks(xs, Dev) ==
+  IF Len(xs) < 3 THEN xs
+  ELSE IF OwnLine(xs[1], Dev) /\ IsBlankStr(xs[2]) /\ OwnLine(xs[3], Dev) THEN <<xs[1]>> \o DropSeamBlanks(SubSeq(xs, 3, Len(xs)), Dev)
+  ELSE <<xs[1]>> \o DropSeamBlanks(Tail(xs), Dev)
+
+\* recurse() on a list / tuple: "".join(map(recurse, node))
+UnparseSeq(xs, Dev) == IF xs = <<>> THEN <<>> ELSE Unparse(Head(xs), Dev) \o UnparseSeq(Tail(xs), Dev)
+UnparseList(xs, Dev) == IF Dev \cap WhatIfSeamDevs = {} THEN UnparseSeq(xs, Dev) ELSE UnparseSeq(DropSeamBlanks(xs, Dev), Dev)
 
 \* sep.join(map(recurse, largs))
 RECURSIVE DropTrailingEmpty(_)
